@@ -117,7 +117,7 @@ def arith(op, a, b):
                     raise OutOfDomain("0**neg")
                 r = Fraction(a) ** b
                 NEGPOW[0] += 1
-                return int(r) if r.denominator == 1 else float(r)
+                return float(r)   # kind of a negative integer power is left open (int or float), see C03.agree
             if isinstance(a, (int, float)) and not isinstance(b, complex) and a < 0 and float(b) != int(b):
                 raise OutOfDomain("real->complex")
             r = a ** b
@@ -158,6 +158,13 @@ def func(name, v):
 
 def lit(text):
     """value of a numeric literal token, through exact rational arithmetic rounded once"""
+    try:
+        return _lit(text)
+    except OverflowError:
+        raise OutOfDomain("literal overflows a double")
+
+
+def _lit(text):
     t = text
     if t[-1] in "jJ":
         body = t[:-1]
